@@ -361,7 +361,7 @@ pub fn spec_strategy(p: &Profile, nthreads_hint: usize) -> BoxedStrategy<Spec> {
         prop_oneof![
             5 => prop_oneof![Just(16u8), Just(32u8), Just(64u8), Just(128u8)].prop_map(|p| Policy::Rand { p }),
             2 => (1u8..5, 40u16..600).prop_map(|(d, len)| Policy::Pct { d, len }),
-            p.w_stall.max(1) => stall,
+            std::env::var("VCHECK_STALL_WEIGHT").ok().and_then(|s| s.parse::<u32>().ok()).unwrap_or(p.w_stall).max(1) => stall,
         ]
         .boxed()
     };
